@@ -74,10 +74,8 @@ theorem facts_numeric_shape :
 theorem facts_numeric_class : ∀ c, inCls numeric_c0 c = Spec.isDigit c := by
   cls_exact numeric_c0, Spec.isDigit
 
-/-- `validate_port` accepts `1 ≤ p ≤ 65535`; names longer than 253 are refused; the type tests -/
-theorem facts_bounds :
-    cfg.portLo = 1 ∧ cfg.portHi = 65535 ∧ cfg.hostMaxLen = 253 ∧
-    portTypes = ["int", "str"] ∧ hostnameTypes = ["str"] := by decide
+/-- `validate_port` accepts `1 ≤ p ≤ 65535`; names longer than 253 are refused -/
+theorem facts_bounds : cfg.portLo = 1 ∧ cfg.portHi = 65535 ∧ cfg.hostMaxLen = 253 := by decide
 
 /-- the interpreter's int-string digit limit cannot refuse a five-digit port -/
 theorem facts_digit_limit : cfg.maxStrDigits = 0 ∨ 5 ≤ cfg.maxStrDigits := by decide
@@ -106,7 +104,7 @@ theorem numeric_test_facts (l : Str) : cfg.numeric.test l = (!l.isEmpty && l.all
 is 1–253 characters of dot-separated labels of 1–63 letters, digits, hyphens or underscores that
 neither begin nor end with a hyphen and whose last label is not all digits — for every string. -/
 theorem hostname_exact (s : Str) : isValidHostnameStr cfg s = Spec.hostname s :=
-  hostname_exact_of cfg label_test_facts numeric_test_facts facts_bounds.2.2.1 s
+  hostname_exact_of cfg label_test_facts numeric_test_facts facts_bounds.2.2 s
 
 /-- non-strings: `TypeError` -/
 theorem hostname_type {α : Type} (v : PyVal α) :
